@@ -164,7 +164,7 @@ class Ctx:
     def tmpdir(self) -> Path:
         """fresh private directory, removed after the case"""
         self.cleanup()
-        base = os.environ.get("XDG_RUNTIME_DIR") or "/var/tmp"
+        base = os.environ.get("PEWVERIF_TMPBASE") or os.environ.get("XDG_RUNTIME_DIR") or "/var/tmp"
         self._tmp = Path(tempfile.mkdtemp(prefix="pewverif-", dir=base if os.path.isdir(base) else None))
         return self._tmp
 
@@ -535,6 +535,17 @@ def main(prop: Prop, modname: str, argv=None):
     def log(msg):
         print(f"[{pid}] {msg}", flush=True)
 
+    # every per-case directory lives under one per-run directory that is removed whatever happens
+    parent = os.environ.get("XDG_RUNTIME_DIR") or "/var/tmp"
+    runbase = tempfile.mkdtemp(prefix="pewverif-run-", dir=parent if os.path.isdir(parent) else None)
+    os.environ["PEWVERIF_TMPBASE"] = runbase
+    try:
+        return _main(prop, modname, args, seed, tier, t0, pid, log)
+    finally:
+        shutil.rmtree(runbase, ignore_errors=True)
+
+
+def _main(prop, modname, args, seed, tier, t0, pid, log):
     try:
         if args.replay:
             return do_replay(prop, args.replay, log)
